@@ -10,6 +10,7 @@ semantics (`Kap.C04.expect`), and judges
 import Kap.Spec.C04
 import Kap.Gen.C04
 import Kap.Gen.C04Sigs
+import Kap.Model.C04Lambda
 open Kap Kap.C04
 
 namespace Kap.C04.Drv
@@ -222,7 +223,40 @@ def parseWant : String → Option Ty
   | "dBool" => some .bool | "dDuration" => some .duration
   | _ => none
 
+/-- a case `lam <k>` / `lev <inst> => ok b:<0|1>`: the expression `(lambda: count()) > k` asked by instances. -/
+def judgeLam (k : Int) (lines : List String) : Verdict := Id.run do
+  let mut ids : List Nat := []
+  let mut obs : List String := []
+  for l in lines do
+    let (opT, o) := splitObs (tokens l)
+    match opT with
+    | ["lev", i] =>
+      let some i := i.toNat? | return .badop l
+      ids := ids ++ [i]
+      obs := obs ++ [" ".intercalate o]
+    | _ => return .badop l
+  let render (bs : List Bool) : List String := bs.map (fun b => s!"ok b:{boolTok b}")
+  let spec := render (Lam.runPerGroup k ids [])
+  let model := render (Lam.runShared k ids 0)
+  if obs.contains "panic" then return .specfail "no-trap" "nested lambda evaluation panicked"
+  if obs != spec then
+    -- the property fails on the observed answers; is it exactly the recorded deviation?
+    if obs == model && Lam.severalGroups ids then
+      return .known "nested-lambda-state-shared" s!"count() inside a nested lambda counted the points of all {ids.eraseDups.length} groups: spec {spec} observed {obs}"
+    return .specfail "stateful-per-group" s!"nested lambda: spec {spec} observed {obs}"
+  if obs != model then return .mismatch s!"nested lambda: model {model} observed {obs}"
+  return .ok (ids.length ≥ 2) ["lambda-node", if Lam.severalGroups ids then "lambda-several-groups-agree" else "lambda-one-group"]
+
 def judge (_id : String) (lines : Array String) : Verdict := Id.run do
+  match lines.toList with
+  | first :: rest =>
+    match tokens first with
+    | ["lam", k] =>
+      match k.toInt? with
+      | some k => return judgeLam k rest
+      | none => return .badop first
+    | _ => pure ()
+  | [] => pure ()
   let mut st : St := {}
   for l in lines do
     let (opT, obs) := splitObs (tokens l)
